@@ -551,3 +551,35 @@ Proof.
     try rewrite D; try rewrite G; try rewrite Z1; try rewrite Z2; try rewrite <- D; try ring.
 Qed.
 End UnionFinal.
+
+(* ====================== the decomposition, in one statement (C02) ====================== *)
+(* what GetDescriptors returns, for a scheme with a chain-free remap table: the call succeeds only if every atom of the prepared
+   graph is hit by exactly one centre pattern; the value of a name is then the (remapped) correction-descriptor count if the
+   descriptor dictionary has the name, else the (remapped) group count; before the remaps the group count of a name is the number
+   of atoms contributing that group and the descriptor count is the number of distinct matched atom sets; the remaps act linearly *)
+Theorem decomposition_spec sch sssr m0 d : chain_free (s_remaps sch) -> get_descriptors sch sssr m0 = SOk d ->
+  let m := aromatize sssr m0 in
+  exists nm,
+    assign_centres sch m = SOk nm /\ length nm = natom m
+    /\ (forall a, (a < natom m)%nat -> exists p, hit_list m (s_patterns sch) a = [p] /\ nth_error nm a = Some (p_center p, p_periph p))
+    /\ (forall k, dict_get (raw_groups m nm) k == fold_right (fun i s => occ k (group_of m nm i) + s) 0 (seq 0 (natom m)))
+    /\ (forall k, dict_get (raw_descr sch m) k == fold_right (fun ds s => dterm m k ds + s) 0 (s_descr sch))
+    /\ (forall k, let G := apply_remaps (s_remaps sch) (raw_groups m nm) in
+                  let D := apply_remaps (s_remaps sch) (raw_descr sch m) in
+                  dict_get d k == (if has_key D k then dict_get D k else dict_get G k))
+    /\ (forall raw, NoDup (map fst raw) -> forall k,
+          dict_get (apply_remaps (s_remaps sch) raw) k
+          == (if src (s_remaps sch) k && memk k (map fst raw) then 0 else dict_get raw k)
+             + fold_right (fun s t => term (s_remaps sch) raw s k + t) 0 (map fst raw)).
+Proof.
+  intros CF H m. unfold get_descriptors in H. fold m in H.
+  destruct (assign_centres sch m) as [nm|e] eqn:E; [|discriminate]. inversion H; subst d. clear H.
+  exists nm. destruct (assign_centres_unique sch m nm E) as [L U].
+  split; [reflexivity|]. split; [exact L|]. split; [exact U|]. split; [intros k; apply raw_groups_count|].
+  split.
+  { intros k. rewrite raw_descr_fold, dfold_get. cbn [dict_get]. ring. }
+  split.
+  { intros k. cbv zeta. rewrite assign_groups_is, assign_descr_is.
+    apply dict_update_get. apply apply_remaps_nodup. apply raw_descr_nodup. }
+  intros raw Hn k. apply apply_remaps_linear; assumption.
+Qed.
